@@ -575,7 +575,6 @@ func c05R9(ic *IC, r *Report) {
 	}
 }
 
-
 func init() {
 	ruleText["R05.10"] = "every run-time closure of the generator of type assertions that reports a status also gives the result its zero value when the assertion fails: the function completing the two-value form (deferred, or called on the failing paths) sets the status and, under !ok, stores reflect.Zero into the result"
 }
